@@ -201,6 +201,119 @@ def step {V} [DecidableEq V] (cfg : Cfg V) (s : St V) : Event V → St V × Opti
 def run {V} [DecidableEq V] (cfg : Cfg V) (s : St V) (evs : List (Event V)) : St V :=
   evs.foldl (fun s e => (step cfg s e).1) s
 
+/-! ## user monitors of the present value (wave 5)
+
+  `obj._property_monitors['presentValue'].append(fn)`: `Property.WriteProperty`
+  stores the new present value and then calls every monitor, in list order, with
+  the (old, new) pair of THAT change.  A monitor may command the object again
+  from inside the callback; that is a nested `WriteProperty` which re-evaluates
+  the priority array itself (and may call the monitors again).  Callbacks are
+  data here: "when told the value became `trigger` (or on any change), and the
+  rule still has firings left, command `value` at `prio`".  The per-rule budget
+  bounds the nesting depth (the harness' callbacks keep the same counters). -/
+
+structure Rule (V : Type) where
+  trigger : Option V        -- none = on every change
+  prio : Option Int
+  value : Option V          -- none = relinquish
+deriving Repr
+
+/-- state of an object with user monitors: the command state plus firings left per rule -/
+structure MSt (V : Type) where
+  st : St V
+  left : List Nat
+
+def decrAt : List Nat → Nat → List Nat
+  | [], _ => []
+  | n :: ns, 0 => (n - 1) :: ns
+  | n :: ns, k + 1 => n :: decrAt ns k
+
+def leftAt : List Nat → Nat → Nat
+  | [], _ => 0
+  | n :: _, 0 => n
+  | _ :: ns, k + 1 => leftAt ns k
+
+def Rule.fires {V} [DecidableEq V] (r : Rule V) (new : V) (left : Nat) : Bool :=
+  decide (0 < left) && (match r.trigger with | none => true | some t => decide (t = new))
+
+/-- `for fn in obj._property_monitors[...]: fn(old_value, value)` over the user rules
+    (rule number `k` onwards); `call` is the nested `obj.WriteProperty("presentValue", v,
+    priority=p)`; an exception leaves the loop -/
+def runRules {V} [DecidableEq V]
+    (call : MSt V → Option V → Option Int → MSt V × Option CErr) (new : V) :
+    List (Rule V) → Nat → MSt V → MSt V × Option CErr
+  | [], _, m => (m, none)
+  | r :: rs, k, m =>
+    if r.fires new (leftAt m.left k) then
+      match call { m with left := decrAt m.left k } r.value r.prio with
+      | (m', some e) => (m', some e)
+      | (m', none) => runRules call new rs (k + 1) m'
+    else runRules call new rs (k + 1) m
+
+/-- `MinOnOffTask.present_value_change(old, new)` with the nested
+    `self.binary_obj.WriteProperty("presentValue", new, priority=6)` as `call` -/
+def minOnOffMon {V} [DecidableEq V] (cfg : Cfg V)
+    (call : MSt V → Option V → Option Int → MSt V × Option CErr) (old new : V) (m : MSt V) :
+    MSt V × Option CErr :=
+  if cfg.minOnOff = false then (m, none)           -- the class has no such monitor
+  else if old = new then (m, none)                 -- "no state change"
+  else
+    match holdDelay cfg new with
+    | none => (m, some .valueError)
+    | some 0 => (m, none)                          -- "no delay"
+    | some (d + 1) =>
+      match call m (some new) (some 6) with
+      | (m3, some e) => (m3, some e)
+      | (m3, none) =>
+        -- self.install_task(delta=task_delay)
+        ({ m3 with st := { m3.st with deadline := some (m3.st.now + 1000000 * (d + 1)) } }, none)
+
+/-- the monitor loop of `Property.WriteProperty(presentValue)`: MinOnOffTask first
+    (attached in `__init__`), then the user's, each told (old, new) of THIS change -/
+def monitors {V} [DecidableEq V] (cfg : Cfg V) (rules : List (Rule V))
+    (call : MSt V → Option V → Option Int → MSt V × Option CErr) (old new : V) (m : MSt V) :
+    MSt V × Option CErr :=
+  match minOnOffMon cfg call old new m with
+  | (m3, some e) => (m3, some e)
+  | (m3, none) => runRules call new rules 0 m3
+
+/-- `_Commando.WriteProperty` on an object whose presentValue monitor list is
+    [MinOnOffTask (if the mix-in is there), user rules …] -/
+def wpM {V} [DecidableEq V] (cfg : Cfg V) (rules : List (Rule V)) :
+    Nat → MSt V → PropId → Option V → Option Int → Option Int → MSt V × Option CErr
+  | 0, m, _, _, _, _ => (m, some .recursion)
+  | fuel + 1, m, prop, value, arrayIndex, priority =>
+    match target cfg prop value arrayIndex priority with
+    | .error e => (m, some e)
+    | .ok i =>
+      let s1 : St V := { m.st with slots := setSlot m.st.slots i value }
+      let w := winner cfg s1.slots
+      if w = s1.present then ({ m with st := s1 }, none)
+      else
+        -- Property.WriteProperty(presentValue, w): store, then the monitors; a monitor's
+        -- own command is a nested WriteProperty on the same object
+        monitors cfg rules (fun m' v p => wpM cfg rules fuel m' .presentValue v none p)
+          s1.present w { m with st := { s1 with present := w } }
+
+/-- recursion depth for objects with user monitors (budgets are small) -/
+def FUELM : Nat := 64
+
+def stepM {V} [DecidableEq V] (cfg : Cfg V) (rules : List (Rule V)) (m : MSt V) :
+    Event V → MSt V × Option CErr
+  | .write p v ai pr => wpM cfg rules FUELM m p v ai pr
+  | .tick t =>
+    let s' : St V := { m.st with now := max m.st.now t }
+    match s'.deadline with
+    | none => ({ m with st := s' }, none)
+    | some dl =>
+      if dl ≤ s'.now then
+        wpM cfg rules FUELM { m with st := { s' with deadline := none } } .presentValue none none (some 6)
+      else ({ m with st := s' }, none)
+
+def runM {V} [DecidableEq V] (cfg : Cfg V) (rules : List (Rule V)) (m : MSt V)
+    (evs : List (Event V)) : MSt V :=
+  evs.foldl (fun m e => (stepM cfg rules m e).1) m
+
 /-- `_Commando.__init__` with no command yet: sixteen nulls, present value given -/
 def init {V} (present : V) (now : Nat := 0) : St V :=
   { slots := fun _ => none, present := present, now := now, deadline := none }
